@@ -292,6 +292,9 @@ func (jb *JitterBuffer) Clear(resetState bool) {
 	if resetState {
 		jb.lastSequence = 0
 		jb.state = Buffering
+		// The playout head is anchored at the first packet pushed afterwards, as on a
+		// new buffer: a stream bound after an unbind does not continue the old numbers.
+		jb.playoutReady = false
 		jb.stats = Stats{0, 0, 0}
 		jb.minStartCount = 50
 	}
